@@ -2729,7 +2729,7 @@ Message* MessageMap::getFirstAvailableFromIterator(const map<uint64_t, vector<Me
 
 Message* MessageMap::find(const MasterSymbolString& master, bool anyDestination,
   bool withRead, bool withWrite, bool withPassive, bool onlyAvailable) const {
-  if (anyDestination && master.size() >= 5 && master[4] == 0 && master[2] == 0x07 && master[3] == 0x04) {
+  if (anyDestination && withRead && master.size() >= 5 && master[4] == 0 && master[2] == 0x07 && master[3] == 0x04) {
     return m_scanMessage;
   }
   size_t maxIdLength = anyDestination || master[1] != BROADCAST ? m_maxIdLength : m_maxBroadcastIdLength;
